@@ -45,6 +45,11 @@ GOOD = {
     'unsignedShort': '1', 'unsignedByte': '1', 'duration': 'PT1H', 'ID': 'id1', 'NCName': 'nc1', 'IDREF': 'id1',
     'base64Binary': 'AAAA', 'QName': 'nc1', 'anyType': 'v', 'NMTOKEN': 'tok', 'NMTOKENS': 'tok1 tok2', 'language': 'en',
     'token': 'v', 'normalizedString': 'v', 'hexBinary': '00', 'int': '1', 'long': '1', 'short': '1', 'decimal': '1',
+    # the rest of the XML Schema number / date family: a conforming value for every built-in type, so that a library
+    # that starts checking one of them finds the generated base instances valid
+    'unsignedLong': '1', 'unsignedInt': '1', 'byte': '1', 'negativeInteger': '-1', 'nonPositiveInteger': '0', 'float': '1.5', 'double': '1.5',
+    'date': '2031-03-04', 'time': '05:06:07', 'gYear': '2031', 'gYearMonth': '2031-03', 'gMonth': '--03', 'gDay': '---04', 'gMonthDay': '--03-04',
+    'Name': 'nc1', 'ENTITY': 'nc1', 'IDREFS': 'id1', 'anySimpleType': 'v',
 }
 BAD = {
     # gross violations and near-misses of the lexical space (what the language's own converters let through:
